@@ -32,6 +32,6 @@ Refines == done => HiddenLeftRecursion \/       \* PegSem does not define recurs
                    \/ StaticLeaderDeviates(Jobs.jobs[job].start)      \* KF-C03-1: decided (and reported) by C03, not here
                    \/ /\ (s.k = "ok") = (m.k = "ok")
                       /\ (s.k = "ok" => s.pos = m.pos)
-                      /\ (s.k = "ok" /\ ~Unspecified => VEq(s.v, m.v))
+                      /\ (s.k = "ok" /\ ~Unspecified /\ ~OverrideListSpliced => VEq(s.v, m.v))     \* KF-C01-1 is C01's, reported there
 RefinesAcceptance == done => LET s == Sem  m == MOutcome IN s.k = "fuel" \/ ((s.k = "ok") = (m.k = "ok") /\ (s.k = "ok" => s.pos = m.pos))
 =============================================================================
